@@ -223,6 +223,12 @@ func main() {
 			}
 			p.Add("histories:"+fams[i].F.Name, p.Counters["histories"]-before)
 		}
+		if only := os.Getenv("VERIF_FAMILY"); only == "" || only == "batch-fault" {
+			before := p.Counters["histories"]
+			d.Close()
+			runBatchFaultFamily(r, sh, p, fmt.Sprintf("%s/w%d", base, sh.Index))
+			p.Add("histories:batch-fault", p.Counters["histories"]-before)
+		}
 	})
 	if n := total.Counters["unconfirmed_findings"]; n > 0 {
 		vr.Fatalf("%d findings did not reproduce on a fresh database (nondeterminism): %v", n, total.Notes)
@@ -237,6 +243,8 @@ func main() {
 		}
 		per[f.F.Name] = total.Counters["histories:"+f.F.Name]
 	}
+	bounds = append(bounds, "batch-fault(2-4 commits forced into one commit batch, each 's' (two small values) or 'B' (one value larger than the WAL write buffer), SyncWrites off/on, one injected file write/sync failure at every call index of the batch + fault-free)")
+	per["batch-fault"] = total.Counters["histories:batch-fault"]
 	verdicts := map[string]int64{}
 	for k, v := range total.Counters {
 		if strings.HasPrefix(k, "verdict:") {
@@ -245,19 +253,21 @@ func main() {
 	}
 	// vacuity: every forced error outcome must actually have been observed
 	if os.Getenv("VERIF_FAMILY") == "" {
-		for _, need := range []string{"commit=nil", "commit=conflict", "commit=toobig", "commit=blocked", "set=!toobig"} {
+		for _, need := range []string{"commit=nil", "commit=conflict", "commit=toobig", "commit=blocked", "set=!toobig", "batch:ok,err", "batch:err,err", "batch:ok,ok"} {
 			if verdicts[need] == 0 {
 				vr.Fatalf("vacuous: outcome %q was never observed (verdicts: %v)", need, verdicts)
 			}
 		}
 	}
 	outcomes := total.Card("outcomes")
-	r.RequireOutcomes(outcomes, 50)
+	if os.Getenv("VERIF_FAMILY") == "" {
+		r.RequireOutcomes(outcomes, 50)
+	}
 	r.Finish(vr.Coverage{
 		Level:       "exploration",
 		Evaluations: total.Counters["histories"],
 		Distinct:    outcomes,
-		Rule:        "interleavings of 1-3 transactions' API calls ending in Commit or CommitWith, with each error outcome forced: conflict (interleaving), too-big (transaction sizes swept through MaxBatchCount and MaxBatchSize), throttled (commit blocked on the write throttle, then released or the DB closed), closed DB; distinct = distinct observation vectors",
+		Rule:        "interleavings of 1-3 transactions' API calls ending in Commit or CommitWith, with each error outcome forced: conflict (interleaving), too-big (transaction sizes swept through MaxBatchCount and MaxBatchSize), throttled (commit blocked on the write throttle, then released or the DB closed), closed DB, I/O failure inside a multi-request commit batch (every single file write/sync fault); distinct = distinct observation vectors",
 		Samples:     total.SamplesAny(),
 		Exhaustive:  !total.TimedOut,
 		Outcomes:    outcomes,
@@ -268,12 +278,26 @@ func main() {
 			"the stored versions are read through DB.NewInternalIterator (every version, all containers) and GetVersionedEntry; the engine-internal key !NoKV!discard is ignored",
 			"'throttled' is exercised through db.applyThrottle (the LSM back-pressure callback): Commit waits in sendToWriteCh and can only fail when the DB is closed meanwhile; the commit runs in one helper goroutine, every other call is sequential",
 			"a write whose Set/Delete itself returned ErrTxnTooBig is not part of the transaction; the statement does not say whether it may appear, so it is not compared",
-			"I/O failures are not injected (not among the error outcomes the statement lists)",
+			"batch-fault family: the commit worker is parked at the hook point db.commit.beforeAck of a blocker commit until 2-4 commits are queued (queue length read through an accessor), so they form one commit batch deterministically; exactly one file write/sync call fails (vfs.FaultFS), every call index that occurs while the batch is processed; commits run in helper goroutines, their verdicts are judged one by one; after reopen only 'error => not visible' is judged (whether an acknowledged commit survives a close that follows an I/O error is a durability question)",
+			"other I/O failures (value-log writes, manifest, reads) are not injected",
 		},
 	})
 }
 
 func replay(r *vr.Run, fams []family, rp txnh.Replay) {
+	if rp.Family == "batch-fault" {
+		f := strings.Fields(rp.History)
+		c := bfCase{Sizes: strings.Split(f[0], ""), Sync: len(f) > 1 && f[1] == "sync", Fault: rp.Warm}
+		res := runBatchFault(r.Scratch()+"/bf", c)
+		if res.err != nil {
+			vr.Fatalf("replay: %v", res.err)
+		}
+		fmt.Printf("replay batch-fault %s => %s; fs calls %v\n", c, res.outcome, res.ops)
+		if res.sig != "" {
+			r.Violation(res.sig, res.desc, rp)
+		}
+		r.Finish(vr.Coverage{Level: "exploration", Evaluations: 1, Distinct: 2, Rule: "replay", Samples: []any{c.String()}})
+	}
 	h, err := txnh.Parse(rp.History)
 	if err != nil {
 		vr.Fatalf("replay: %v", err)
